@@ -134,8 +134,49 @@ def _init_worker():
     np.seterr(all="ignore")
 
 
+class HorizonExceeded(BaseException):
+    pass
+
+
+def _alarm(signum, frame):
+    raise HorizonExceeded()
+
+
+# every shard has an explicit horizon: on the unchanged tree the slowest shard of any check takes well under a minute on
+# one core; a shard that is still running after HORIZON seconds of its own is not exploring, it is stuck in the library
+HORIZON = int(os.environ.get("HGMC_HORIZON", "600"))  # ./check sets 600 s (quick) / 3600 s (thorough) unless HGMC_HORIZON is given
+CURRENT_PROP = [None]
+
+
 def _call(packed):
     fn, idx, item = packed
+    import signal
+
+    try:
+        signal.signal(signal.SIGALRM, _alarm)
+        signal.alarm(HORIZON)
+    except (ValueError, AttributeError):
+        pass
+    try:
+        return _call_inner(fn, idx, item)
+    except HorizonExceeded:
+        acc = Acc()
+        shard = {"fn": "%s:%s" % (fn.__module__, fn.__qualname__),
+                 "item_pickle_b64": base64.b64encode(pickle.dumps(item)).decode(), "item": repr(item)[:400]}
+        prop = CURRENT_PROP[0] or fn.__module__.rsplit(".", 1)[-1].upper()
+        v = violation(prop, "__shard__", "shard %s" % fn.__qualname__, "did-not-finish-within-%ds" % HORIZON,
+                      dict(shard), {"item": repr(item)[:400]})
+        v["shard"] = shard
+        acc.add(v)
+        return idx, acc, None
+    finally:
+        try:
+            signal.alarm(0)
+        except (ValueError, AttributeError):
+            pass
+
+
+def _call_inner(fn, idx, item):
     try:
         res = fn(item)
         if getattr(res, "viol", None):
@@ -146,6 +187,8 @@ def _call(packed):
             for v in res.viol.values():
                 v.setdefault("shard", shard)
         return idx, res, None
+    except HorizonExceeded:
+        raise
     except BaseException:  # harness bug: surface it, never swallow
         return idx, None, traceback.format_exc()
 
@@ -304,7 +347,7 @@ def finish(prop, tier, seed, acc, t0, coverage, assumptions, confirm=True):
                 os.unlink(os.path.join(d, f))
     for i, v in enumerate(new):
         path = write_replay(v)
-        if confirm and i < 4 and v.get("args") is not None:
+        if confirm and i < 4 and v.get("args") is not None and "|did-not-finish-within-" not in v["sig"]:
             outs = replay_in_subprocess(path)
             ok = all(v["sig"] in sigs for _, sigs in outs) and outs[0] == outs[1]
             if not ok and v.get("shard"):
